@@ -5,6 +5,7 @@
 import MjwVerif.Lemmas.Real
 import MjwVerif.Gen.Ray
 
+set_option linter.unusedSimpArgs false
 namespace Mjw.Lemmas.C34
 open Mjw Mjw.Gen.Ray
 
@@ -60,6 +61,12 @@ theorem ray_quad_pos (a b c : ℝ) (ha : 0 < a) (hd : minval ≤ b * b - a * c) 
 theorem ray_quad_reject' (a b c : ℝ) (h : b * b - a * c < minval) :
     _ray_quad a b c = (-1, ⟨-1, -1⟩) := by
   rw [ray_quad_eq, if_pos h]
+
+/-- any negative scalar result of `_ray_quad` is exactly `-1` (no hypothesis) -/
+theorem ray_quad_neg (a b c : ℝ) (h : (_ray_quad a b c).1 < 0) : (_ray_quad a b c).1 = -1 := by
+  rw [ray_quad_eq] at h ⊢
+  dsimp only at h ⊢
+  split_ifs at h ⊢ <;> first | rfl | (exfalso; linarith)
 
 /-- point on the ray at parameter `t` -/
 noncomputable def rayPt (pnt vec : V3 ℝ) (t : ℝ) : V3 ℝ := V3.add pnt (V3.muls vec t)
@@ -304,7 +311,166 @@ theorem ray_ellipsoid_eq (pos : V3 ℝ) (mat : M33 ℝ) (size pnt vec : V3 ℝ) 
           (V3.dot (V3.cwmul s l.1) l.1 - 1)).1
        (sol, if 0 ≤ sol then M33.mulVec mat (V3.normalize (V3.cwmul s (rayPt l.1 l.2 sol))) else V3.zero)) := by
   simp only [ray_ellipsoid, sge, hsub, lit_one, lit_zero, rayPt, ellScale, hmul]
-  trace_state
-  split_ifs <;> rfl
+  split_ifs with h <;> simp only [h, if_true, if_false]
+
+/-! ## ray_cylinder: stage decomposition
+  `cylCaps`, `cylSide`, `cylNormal` are verbatim copies of the three stages of the generated
+  `ray_cylinder`; `ray_cylinder_eq` (proved by `rfl`) ties them to the generated definition, so a change of
+  the generated code breaks that proof. -/
+
+/-- caps stage of ray_cylinder (verbatim copy of the generated sub-term) -/
+noncomputable def cylCaps (lpnt lvec size : V3 ℝ) : ℝ × V2 ℝ × ℝ × Int :=
+    let x : ℝ := (Scalar.lit (-1) 0 : ℝ)
+    let part : Int := (0 : Int)
+      if (Scalar.gt (Scalar.abs lvec.c2) (Scalar.lit 1 (-15) : ℝ)) then
+
+        let sol : ℝ := ((((Scalar.lit (-1) 0 : ℝ) * size.c1) - lpnt.c2) / lvec.c2)
+        let (p, x, part) :=
+          if (Scalar.ge sol (Scalar.lit 0 0 : ℝ)) then
+            let p : V2 ℝ := (⟨(lpnt.c0 + (sol * lvec.c0)), (lpnt.c1 + (sol * lvec.c1))⟩ : V2 ℝ)
+            let (x, part) :=
+              if (Scalar.le (V2.dot p p) (size.c0 * size.c0)) then
+                let (x, part) :=
+                  if ((Scalar.lt x (Scalar.lit 0 0 : ℝ)) || (Scalar.lt sol x)) then
+                    let x : ℝ := sol
+                    let part : Int := (-1 : Int)
+                    (x, part)
+                  else
+                    (x, part)
+                (x, part)
+              else
+                (x, part)
+            (p, x, part)
+          else
+            ((V2.zero : V2 ℝ), x, part)
+
+        let sol : ℝ := ((((Scalar.lit 1 0 : ℝ) * size.c1) - lpnt.c2) / lvec.c2)
+        let (p, x, part) :=
+          if (Scalar.ge sol (Scalar.lit 0 0 : ℝ)) then
+            let p : V2 ℝ := (⟨(lpnt.c0 + (sol * lvec.c0)), (lpnt.c1 + (sol * lvec.c1))⟩ : V2 ℝ)
+            let (x, part) :=
+              if (Scalar.le (V2.dot p p) (size.c0 * size.c0)) then
+                let (x, part) :=
+                  if ((Scalar.lt x (Scalar.lit 0 0 : ℝ)) || (Scalar.lt sol x)) then
+                    let x : ℝ := sol
+                    let part : Int := (1 : Int)
+                    (x, part)
+                  else
+                    (x, part)
+                (x, part)
+              else
+                (x, part)
+            (p, x, part)
+          else
+            (p, x, part)
+        (sol, p, x, part)
+      else
+        ((Scalar.lit 0 0 : ℝ), (V2.zero : V2 ℝ), x, part)
+
+noncomputable def cylSide (lpnt lvec size : V3 ℝ) (x : ℝ) (part : Int) : ℝ × Int :=
+    let a : ℝ := ((lvec.c0 * lvec.c0) + (lvec.c1 * lvec.c1))
+    let b : ℝ := ((lvec.c0 * lpnt.c0) + (lvec.c1 * lpnt.c1))
+    let c : ℝ := (((lpnt.c0 * lpnt.c0) + (lpnt.c1 * lpnt.c1)) - (size.c0 * size.c0))
+    let (sol, _) := (Mjw.Gen.Ray._ray_quad (K := ℝ) a b c)
+    let (x, part) :=
+      if ((Scalar.ge sol (Scalar.lit 0 0 : ℝ)) && (Scalar.le (Scalar.abs (lpnt.c2 + (sol * lvec.c2))) size.c1)) then
+        let (x, part) :=
+          if ((Scalar.lt x (Scalar.lit 0 0 : ℝ)) || (Scalar.lt sol x)) then
+            let x : ℝ := sol
+            let part : Int := (0 : Int)
+            (x, part)
+          else
+            (x, part)
+        (x, part)
+      else
+        (x, part)
+    (x, part)
+
+noncomputable def cylNormal (mat : M33 ℝ) (lpnt lvec : V3 ℝ) (x : ℝ) (part : Int) : V3 ℝ :=
+    let normal : V3 ℝ := (V3.zero : V3 ℝ)
+    let normal :=
+      if (Scalar.ge x (Scalar.lit 0 0 : ℝ)) then
+        let normal :=
+          if (decide (part = (0 : Int))) then
+            let normal : V3 ℝ := (V3.add lpnt (V3.muls lvec x))
+            let normal : V3 ℝ := { normal with c2 := (Scalar.lit 0 0 : ℝ) }
+            let normal : V3 ℝ := (V3.normalize normal)
+            normal
+          else
+            let normal : V3 ℝ := (⟨(Scalar.lit 0 0 : ℝ), (Scalar.lit 0 0 : ℝ), (Scalar.ofInt part : ℝ)⟩ : V3 ℝ)
+            normal
+        let normal : V3 ℝ := (M33.mulVec mat normal)
+        normal
+      else
+        normal
+    normal
+
+theorem ray_cylinder_eq (pos : V3 ℝ) (mat : M33 ℝ) (size pnt vec : V3 ℝ) :
+    ray_cylinder pos mat size pnt vec =
+      (let d := ray_sphere pos (size.c0 * size.c0 + size.c1 * size.c1) pnt vec
+       if Scalar.lt d.1 (Scalar.lit 0 0 : ℝ) then ((Scalar.lit (-1) 0 : ℝ), (V3.zero : V3 ℝ))
+       else
+         let l := _ray_map pos mat pnt vec
+         let c := cylCaps l.1 l.2 size
+         let s := cylSide l.1 l.2 size c.2.2.1 c.2.2.2
+         (s.1, cylNormal mat l.1 l.2 s.1 s.2)) := by
+  rfl
+
+
+theorem cap_z (a b c : ℝ) (h : c ≠ 0) : b + (a - b) / c * c = a := by field_simp; ring
+
+/-- invariant after the two cap tests of `ray_cylinder` -/
+def CylCapInv (lp lv size : V3 ℝ) (x : ℝ) (part : Int) : Prop :=
+  (x = -1 ∧ part = 0) ∨
+  (0 ≤ x ∧ ((part = -1 ∧ lp.c2 + x * lv.c2 = -size.c1) ∨ (part = 1 ∧ lp.c2 + x * lv.c2 = size.c1)) ∧
+    (lp.c0 + x * lv.c0) * (lp.c0 + x * lv.c0) + (lp.c1 + x * lv.c1) * (lp.c1 + x * lv.c1) ≤
+      size.c0 * size.c0)
+
+theorem cylCaps_inv (lp lv size : V3 ℝ) :
+    CylCapInv lp lv size (cylCaps lp lv size).2.2.1 (cylCaps lp lv size).2.2.2 := by
+  unfold cylCaps
+  simp only [sgt, sge, sle, slt, sabs, lit_zero, lit_one, lit_neg_one, lit_minval', Bool.or_eq_true,
+    hmul, hadd, V2.dot, neg_one_mul, one_mul]
+  split_ifs with hg <;> simp only [] <;> unfold CylCapInv
+  all_goals
+    first
+    | (left; exact ⟨rfl, rfl⟩)
+    | (have hne : lv.c2 ≠ 0 := by
+         intro h0; rw [h0, abs_zero] at hg; linarith [minval_pos]
+       first
+       | (right; exact ⟨‹_›, Or.inl ⟨rfl, cap_z _ _ _ hne⟩, ‹_›⟩)
+       | (right; exact ⟨‹_›, Or.inr ⟨rfl, cap_z _ _ _ hne⟩, ‹_›⟩))
+
+theorem sq2_zero {u v : ℝ} (h : u * u + v * v = 0) : u = 0 ∧ v = 0 := by
+  constructor <;> nlinarith [mul_self_nonneg u, mul_self_nonneg v]
+
+theorem sq3_zero {u v w : ℝ} (h : u * u + v * v + w * w = 0) : u = 0 ∧ v = 0 ∧ w = 0 := by
+  refine ⟨?_, ?_, ?_⟩ <;> nlinarith [mul_self_nonneg u, mul_self_nonneg v, mul_self_nonneg w]
+
+/-- invariant after the side test of `ray_cylinder` -/
+def CylInv (lp lv size : V3 ℝ) (x : ℝ) (part : Int) : Prop :=
+  CylCapInv lp lv size x part ∨
+  (0 ≤ x ∧ part = 0 ∧
+    (lp.c0 + x * lv.c0) * (lp.c0 + x * lv.c0) + (lp.c1 + x * lv.c1) * (lp.c1 + x * lv.c1) =
+      size.c0 * size.c0 ∧ |lp.c2 + x * lv.c2| ≤ size.c1)
+
+theorem cylSide_inv (lp lv size : V3 ℝ) (x : ℝ) (part : Int) (h : CylCapInv lp lv size x part) :
+    CylInv lp lv size (cylSide lp lv size x part).1 (cylSide lp lv size x part).2 := by
+  have hq := quad_sol (lv.c0 * lv.c0 + lv.c1 * lv.c1) (lv.c0 * lp.c0 + lv.c1 * lp.c1)
+    (lp.c0 * lp.c0 + lp.c1 * lp.c1 - size.c0 * size.c0)
+    (by nlinarith [mul_self_nonneg lv.c0, mul_self_nonneg lv.c1])
+    (by intro h0; obtain ⟨z0, z1⟩ := sq2_zero h0; rw [z0, z1]; ring)
+  unfold cylSide
+  simp only [sge, sle, slt, sabs, lit_zero, Bool.or_eq_true, Bool.and_eq_true, hmul, hadd, hsub]
+  set q := _ray_quad (lv.c0 * lv.c0 + lv.c1 * lv.c1) (lv.c0 * lp.c0 + lv.c1 * lp.c1)
+    (lp.c0 * lp.c0 + lp.c1 * lp.c1 - size.c0 * size.c0) with hqdef
+  dsimp only at hq
+  split_ifs with h1 h2 <;> simp only []
+  · right
+    refine ⟨h1.1, rfl, ?_, h1.2⟩
+    have := (hq.1 h1.1).1
+    nlinarith [this]
+  · left; exact h
+  · left; exact h
 
 end Mjw.Lemmas.C34
